@@ -44,6 +44,7 @@ ATOMS = [
     # punctuation
     "(", ")", ",", "/", ":", "=", "-", " ", "'", "$", ".", "+", "%27", "\x00", "x=1", "(1,2)",
     # characters that case-fold into ASCII keyword letters under re.IGNORECASE (long s, Kelvin sign, dotted I)
+    "(1,2,)", ",)", "f(a,b,)",
     "fal\u017fe", " \u017fub ", "\u017f", "\u212a", "\u0130n", "tr\u00fce", "nu\u217c\u217c",
 ]
 
